@@ -104,3 +104,20 @@ func VerifC19Forge(c *Cache, q dns.Question, cd bool, from, to netip.Prefix) boo
 
 // VerifC19WithBypass installs the cache's request-tree marker (withSharedDenialBypass).
 func VerifC19WithBypass(ctx context.Context) context.Context { return withSharedDenialBypass(ctx) }
+
+// VerifC19RunPrefetch empties the held queue by running the worker's own
+// processPrefetch on every queued refresh, synchronously and in queue order.
+func VerifC19RunPrefetch(c *Cache) (n int) {
+	if c.prefetchQueue == nil {
+		return 0
+	}
+	for {
+		select {
+		case r := <-c.prefetchQueue.items:
+			n++
+			c.prefetchQueue.processPrefetch(r)
+		default:
+			return n
+		}
+	}
+}
